@@ -188,6 +188,11 @@ def run(prop: str, tier: str) -> int:
             sub = s["sub"]
             try:
                 real = [isa.build(nvcl[i["mn"]], nvshape[i["mn"]], i["ops"]) for i in sub["instrs"]]
+                if prop == "C02" and s["id"] % 3 == 0:
+                    # host-side debug markers (as a transpiler with debug=True leaves them) take no room in the format
+                    from netqasm.lang.instr.base import DebugInstruction
+                    real.insert(min(1, len(real)), DebugInstruction(text="marker"))
+                    real.append(DebugInstruction(text="end"))
                 b = bytes(Subroutine(instructions=real, app_id=sub["app"], netqasm_version=tuple(sub["ver"])))
             except Exception as ex:
                 V.add("encoder-raises-in-range", {"stream": "nv"}, f"{type(ex).__name__}: {ex}", s)
